@@ -7,9 +7,15 @@
                                `err <Variant> <code>` / `panic`;  `|` separates lines
   `rt`                       → `rt <b1> <b2>`: serialize, rebuild, serialize again;
                                b1 = same text, b2 = same darts, β, flags and vertex values
+  `serhex`                   → `serhex <hex>`: the BYTES of `serialize` (character-level model
+                               `serializeChars`), the two coordinate fields of every vertex line
+                               replaced by their exact rational text, every other byte kept
+  `loadhex <mask> [<hex>]`   → as `loadtext`, from raw bytes (character-level reader `parseFileC`);
+                               invalid UTF-8 → `panic` (`read_to_string(..).expect(..)`)
 -/
 import Honeycomb.Model.Session
 import Honeycomb.Model.CmapText
+import Honeycomb.Model.CmapChars
 
 namespace HC
 open CmapText
@@ -52,8 +58,49 @@ def rtStr (m : Map Val) : String :=
     | .retry => "retry"
     | .panic => "panic"
 
+def hexDigit (n : Nat) : Char := if n < 10 then Char.ofNat (48 + n) else Char.ofNat (87 + n)
+
+def hexOfBytes (b : ByteArray) : String :=
+  String.ofList (b.toList.flatMap fun x => [hexDigit (x.toNat / 16), hexDigit (x.toNat % 16)])
+
+def hexVal (c : Char) : Option Nat :=
+  if '0' ≤ c ∧ c ≤ '9' then some (c.toNat - 48)
+  else if 'a' ≤ c ∧ c ≤ 'f' then some (c.toNat - 87)
+  else if 'A' ≤ c ∧ c ≤ 'F' then some (c.toNat - 55)
+  else none
+
+def bytesOfHex : List Char → Option (List UInt8)
+  | [] => some []
+  | [_] => none
+  | a :: b :: r =>
+    match hexVal a, hexVal b, bytesOfHex r with
+    | some x, some y, some bs => some (UInt8.ofNat (16 * x + y) :: bs)
+    | _, _, _ => none
+
+def loadHex (s : Sess) (mask : String) (hex : String) : Sess × String :=
+  match mask.toNat?, bytesOfHex hex.toList with
+  | some mask, some bs =>
+    match String.fromUTF8? (ByteArray.mk bs.toArray) with
+    | none => (s, "panic")
+    | some text =>
+      match parseFileC text.toList with
+      | .error e => (s, layoutStr e)
+      | .ok f =>
+        match build 6 f with
+        | .ok m => ({ dim := 2, mask := mask, cfg := stdCfg 3 mask, m := m }, "ok")
+        | .err e => (s, errStr e)
+        | .retry => (s, "retry")
+        | .panic => (s, "panic")
+  | _, _ => (s, "bad-op")
+
 def topIO (s : Sess) (toks : List String) : Option (Sess × String) :=
   match toks with
+  | ["loadhex", mask] => some (loadHex s mask "")
+  | ["loadhex", mask, hex] => some (loadHex s mask hex)
+  | ["serhex"] =>
+    if s.dim ≠ 2 then some (s, "bad-op") else
+    if serializePanics s.m then some (s, "panic")
+    else some (s, "serhex " ++ hexOfBytes (String.ofList (serializeChars pkgVersion ratStr s.m)).toUTF8)
   | "loadtext" :: mask :: rest =>
     match mask.toNat? with
     | none => some (s, "bad-op")
